@@ -72,7 +72,8 @@ HARD_TACTIC = ["simplify", "propagate-values", "ctx-solver-simplify", "smt"]
 
 
 def zero_lemmas(f):
-  """TRUE facts about multiplication, instantiated for the products occurring in f: a product with a zero factor is zero"""
+  """TRUE facts about multiplication, instantiated for the products occurring in f: a product with a zero factor is zero;
+  a square is non-negative"""
   acc, vis = [], set()
 
   def walk(t):
@@ -83,6 +84,10 @@ def zero_lemmas(f):
       fs = [c for c in t.children() if not z3.is_rational_value(c)]
       if len(fs) >= 2:
         acc.append(z3.Implies(z3.Or(*[x == 0 for x in fs]), t == 0))
+      if len(t.children()) == 2 and t.arg(0).eq(t.arg(1)):
+        acc.append(t >= 0)  # a square is non-negative
+    if z3.is_app_of(t, z3.Z3_OP_POWER) and z3.is_rational_value(t.arg(1)) and t.arg(1).as_long() == 2:
+      acc.append(t >= 0)
     for c in t.children():
       walk(c)
 
@@ -136,29 +141,66 @@ def simplify_under(f, lits, rounds=8):
   return f
 
 
+_COVERED = set()
+
+
 def _mk_session(ctx, bg, strategy, ms):
   """strategy: 'smt' (default solver) or 'ctx' (contextual simplification first)"""
   sess = kh.Session([], ms)
   if strategy == "ctx":
     sess.s = z3.TryFor(z3.Then(*HARD_TACTIC), ms).solver()
+  else:
+    sess.s = z3.TryFor(z3.Tactic("smt"), ms).solver()
   sess.add(*bg)
   return sess
 
 
+_BEST = {}
+
+
 def _portfolio(ctx, bg, name, goal, guard, budget):
-  """-> (QResult, session) of the first conclusive strategy, or the last inconclusive one"""
+  """-> (QResult, session) of the first conclusive strategy, or the last inconclusive one.  The strategy that decided the
+  previous query of the same kind is tried first."""
+  import re
+
   lem = zero_lemmas(goal)
-  plans = [("smt", [], 0.15), ("smt", lem, 0.15), ("ctx", lem, 0.7)]
+  plans = [("smt", [], 0.2), ("smt", lem, 0.3), ("ctx", lem, 0.5)]
+  kind = re.sub(r"\[.*\]$", "", re.sub(r"^row\d+/", "", name))
+  if kind in _BEST:
+    plans.sort(key=lambda p: 0 if (p[0], bool(p[1])) == _BEST[kind] else 1)
   r = sess = None
   for strat, extra, frac in plans:
     sess = _mk_session(ctx, list(bg) + extra, strat, max(1000, int(budget * frac)))
     r = sess.prove(name, goal, guard)
     if r.status in ("unsat", "sat"):
+      _BEST[kind] = (strat, bool(extra))
+      r.strategy = strat + ("+lemmas" if extra else "")
       break
   return r, sess
 
 
-def prove_hard(ctx, bg, name, goal, guard, cases, cover_guard, path=None, **kw):
+def robust_replay(ctx, bg, goal, guard, nice, base):
+  """replay wrapper: before replaying the solver's first model, ask for a counterexample with well-conditioned float inputs
+  (regular solver parameters, moderate magnitudes, a sizeable difference) so that the deviation is visible in float32 on
+  the real kernel; the verdict of the query is not affected (the original model is replayed if no such model exists)."""
+
+  def rp(model):
+    if nice is not None and base is not None:
+      try:
+        s2 = _mk_session(ctx, bg, "smt", ctx.timeout_ms)
+        r = s2.prove("witness", goal, And(guard, nice))
+        if r.status == "sat":
+          ok, path = base(r.model)
+          if ok:
+            return ok, path
+      except Exception:
+        pass
+    return base(model)
+
+  return rp
+
+
+def prove_hard(ctx, bg, name, goal, guard, cases, cover_guard, path=None, cases_first=False, nice=None, **kw):
   """bilinear goals (Jacobian row . qvel, scatter of CSR rows).  The thread's own path condition (guard of the _efc_row
   call; `row/emitted` proves guard => path) is first propagated into the goal, which removes the predicated-execution
   ites.  Then a small portfolio (plain SMT; + zero-product lemmas; + contextual simplification) on the whole query; if
@@ -168,22 +210,34 @@ def prove_hard(ctx, bg, name, goal, guard, cases, cover_guard, path=None, **kw):
   if path is not None:
     goal = simplify_under(goal, unit_literals(path))
     guard = And(guard, path)
+  if nice is not None and kw.get("replay") is not None:
+    kw["replay"] = robust_replay(ctx, bg, goal, guard, nice, kw["replay"])
   T = ctx.timeout_ms
-  r, sess = _portfolio(ctx, bg, name, goal, guard, T if not cases else T // 2)
-  if r.status == "unsat":
-    ctx._rec(r)
-    return r
-  if r.status == "sat" or not cases:
-    return ctx.prove(sess, name, goal, guard, **kw)
-  ctx.notes.append(f"{name}: whole query inconclusive; decided by a complete case split over {len(cases)} index patterns")
-  s1 = ctx.session(bg)
-  ctx.prove(s1, name + "/cases-cover", Or(*[And(cg, *[cmp("==", t, v) for t, v in sb]) for _, sb, cg in cases]), cover_guard, **kw)
+  if not (cases and cases_first):
+    r, sess = _portfolio(ctx, bg, name, goal, guard, T if not cases else T // 2)
+    if r.status == "unsat":
+      ctx._rec(r)
+      return r
+    if r.status == "sat" or not cases:
+      return ctx.prove(sess, name, goal, guard, **kw)
+    ctx.notes.append(f"{name}: whole query inconclusive; decided by a complete case split over {len(cases)} index patterns")
+  key = (id(cases), str(cover_guard))
+  if key not in _COVERED:
+    _COVERED.add(key)
+    s1 = ctx.session(bg)
+    ctx.prove(s1, name + "/cases-cover", Or(*[And(cg, *[cmp("==", t, v) for t, v in sb]) for _, sb, cg in cases]), cover_guard, **kw)
   bgz = z3.And(*[core.zbool(x) for x in bg])
   for cn, sb, cg in cases:
-    sub = [(t, z3.IntVal(v)) for t, v in sb]
-    link = z3.And(*[t == v for t, v in sub]) if sub else z3.BoolVal(True)
-    S = (lambda f: subst_fix(core.zbool(f), sub)) if sub else core.zbool
-    gl, gd = S(goal), z3.And(S(bgz), S(cg), link, S(guard))
+    # 1. the case's boolean literals (e.g. site- vs body-type) are propagated first (also into the index terms),
+    # 2. then the index terms are replaced by their case values; the equalities stay in the guard
+    cgz = core.zbool(cg)
+    lits = unit_literals(cgz)
+    L = lambda f: simplify_under(core.zbool(f) if not isinstance(f, z3.ExprRef) else f, lits)
+    sub = [(L(t) if isinstance(t, z3.ExprRef) else t, L(v) if isinstance(v, z3.ExprRef) else z3.IntVal(v)) for t, v in sb]
+    sub = [(t, v) for t, v in sub if isinstance(t, z3.ExprRef) and not z3.is_int_value(t)]
+    link = z3.And(*[core.zbool(cmp("==", t, v)) for t, v in sb]) if sb else z3.BoolVal(True)
+    S = (lambda f: subst_fix(L(f), sub)) if sub else L
+    gl, gd = S(goal), z3.And(S(z3.And(bgz, core.zbool(guard))), cgz, link)
     r, sess = _portfolio(ctx, [], f"{name}[{cn}]", gl, gd, 3 * T)
     if r.status == "unsat":
       ctx._rec(r)
@@ -425,17 +479,44 @@ def check_rows(B, exp, w, nv):
     ctx.error(f"{tag}: {len(B.rows)} _efc_row call sites for {nrows} expected rows")
     return sess, bg
   G = And(act, fits)
+  ts = kt.pre("opt_timestep", arith("%", w, kt.cell("opt_timestep").shape[0]))
+  nice_all = [cmp(">=", ts, 0.001), cmp("<=", ts, 0.01)]
+  for row in exp["rows"]:
+    reg = rf.regular_params(row["solref"], row["solimp"], ts, True)
+    nice_all += list(reg.values()) + [cmp(">=", row["solref"][0], 0.01), cmp("<=", row["solref"][0], 0.05), cmp(">=", row["solref"][1], 0.5), cmp("<=", row["solref"][1], 1.0)]
+    nice_all += [cmp(">=", row["solimp"][0], 0.5), cmp("<=", row["solimp"][1], 0.99), cmp("==", row["solimp"][4], 1.0), cmp(">=", row["solimp"][2], 0.01)]
+    nice_all += [cmp(">=", row["invweight"], 0.2), cmp("<=", row["invweight"], 5.0), cmp("<=", row["margin"], 0.1), cmp(">=", row["margin"], 0.0)]
+  nice_all = And(*nice_all)
+
+  def witness(x, y):
+    if is_sym(x) and x.sort() == z3.RealSort() or is_sym(y) and y.sort() == z3.RealSort():
+      d = arith("-", x, y)
+      return And(nice_all, Or(cmp(">=", d, 0.1), cmp("<=", d, -0.1)), cmp("<=", d, 5.0), cmp(">=", d, -5.0))
+    return nice_all
+
   for r, ((g, a), row) in enumerate(zip(B.rows, exp["rows"])):
     er = arith("+", B.e0, r)
     rp = B.replay(f"row{r}", "rows")
     ctx.prove(sess, f"row{r}/emitted", And(g, cmp("==", a["efcid"], er), cmp("==", a["worldid"], w)), G, names=names, replay=rp, desc=f"{tag}: row {r} of an active fitting constraint is not assembled at nefc0+{r}")
     ctx.prove(sess, f"row{r}/emitted-only-if-active", Implies(g, Or(act, exp.get("both", False))), True, names=names, replay=rp, desc=f"{tag}: a row is assembled for an inactive constraint")
+    PH = lambda nm, goal, txt, guard=None, hard=False, nice=nice_all: prove_hard(ctx, bg, nm, goal, G if guard is None else guard, exp.get("cases"), And(G, cmp("<=", nv, B.U)), path=g, cases_first=hard and bool(exp.get("cases_first")), nice=nice, names=names, replay=rp, desc=f"{tag}: row {r}: {txt}")
     for f in ("pos_aref", "pos_imp", "invweight", "margin", "frictionloss", "type", "id"):
-      if row.get(f + "_sq"):
-        goal = And(cmp(">=", a[f], 0.0), cmp("==", arith("*", a[f], a[f]), row[f]))
+      if f == "pos_imp" and "pos_imp_norm_of" in row:
+        # multi-row constraint: the impedance argument is the Euclidean norm of the rows' positions (each proven equal to MuJoCo's)
+        sq = rf.vsum([arith("*", B.rows[j][1]["pos_aref"], B.rows[j][1]["pos_aref"]) for j in row["pos_imp_norm_of"]])
+        goal = And(cmp(">=", a[f], 0.0), cmp("==", arith("*", a[f], a[f]), sq))
+        # needs only the side axioms of the square roots (fewer assumptions = stronger statement, much smaller query)
+        side = [core.zbool(x) for x in kt.it.assumes]
+        prove_hard(ctx, side, f"row{r}/{f}", goal, g, None, True, names=names, replay=rp, desc=f"{tag}: row {r}: impedance argument is not the norm of the constraint's position rows")
+        continue
       else:
         goal = cmp("==", a[f], row[f])
-      ctx.prove(sess, f"row{r}/{f}", goal, G, names=names, replay=rp, desc=f"{tag}: row {r}: {f} handed to _efc_row differs from MuJoCo's row")
+      wit = witness(a[f], row[f])
+      if f == "invweight" and "invweight_guard" in row:
+        PH(f"row{r}/{f}", goal, f"{f} handed to _efc_row differs from MuJoCo's row", And(G, row["invweight_guard"]), nice=wit)
+        PH(f"row{r}/{f}(body-welded-to-parent)", goal, "SPARSE specialisation looks up body_invweight0 of body_weldid[body] instead of the body: for a body without joints attached to its parent the diagApprox (hence efc.D) differs from MuJoCo and from the dense specialisation", And(G, Not(row["invweight_guard"])), nice=wit)
+        continue
+      PH(f"row{r}/{f}", goal, f"{f} handed to _efc_row differs from MuJoCo's row", nice=wit)
     ctx.prove(sess, f"row{r}/solref", And(*[cmp("==", x, y) for x, y in zip(a["solref"].c, row["solref"])]), G, names=names, replay=rp, desc=f"{tag}: row {r}: wrong solref")
     ctx.prove(sess, f"row{r}/solimp", And(*[cmp("==", x, y) for x, y in zip(a["solimp"].c, row["solimp"])]), G, names=names, replay=rp, desc=f"{tag}: row {r}: wrong solimp")
     ctx.prove(sess, f"row{r}/timestep+flags", And(cmp("==", a["timestep"], kt.pre("opt_timestep", arith("%", w, kt.cell("opt_timestep").shape[0]))), cmp("==", a["opt_disableflags"], kt.args["opt_disableflags"])), G, names=names, replay=rp, desc=f"{tag}: row {r}: wrong timestep / disable flags")
@@ -451,14 +532,14 @@ def check_rows(B, exp, w, nv):
       nnz, adr = kt.post("efc_J_rownnz_out", w, er), kt.post("efc_J_rowadr_out", w, er)
       goals.append(("csr-block", And(cmp(">=", nnz, 0), cmp("<=", nnz, B.U), cmp(">=", adr, B.a0), cmp("<=", arith("+", adr, nnz), arith("+", B.a0, B.nn))), G, "CSR row lies outside the non-zero block this thread allocated"))
     for gn, goal, guard, txt in goals:
-      prove_hard(ctx, bg, f"row{r}/{gn}", goal, guard, exp.get("cases"), And(G, cmp("<=", nv, B.U)), path=g, names=dict(names, c=c), replay=B.replay(f"row{r}/{gn}", "rows"), desc=f"{tag}: row {r}: {txt}")
+      prove_hard(ctx, bg, f"row{r}/{gn}", goal, guard, exp.get("cases"), And(G, cmp("<=", nv, B.U)), path=g, cases_first=bool(exp.get("cases_first")), nice=nice_all, names=dict(names, c=c), replay=B.replay(f"row{r}/{gn}", "rows"), desc=f"{tag}: row {r}: {txt}")
     # final state of the row = what _efc_row stored (+ the documented correction)
     for f in ("type", "id", "pos", "margin", "vel", "frictionloss", "D"):
       src = {"type": a["type"], "id": a["id"], "pos": arith("+", a["pos_aref"], a["margin"]), "margin": a["margin"], "vel": a["vel"], "frictionloss": a["frictionloss"], "D": a["D!"]}[f]
       ctx.prove(sess, f"row{r}/final/{f}", cmp("==", kt.post(f"efc_{f}_out", w, er), src), G, names=names, replay=rp, desc=f"{tag}: row {r}: efc.{f} is modified after _efc_row")
     extra = row.get("aref_extra", 0.0)
     if extra is not None:
-      ctx.prove(sess, f"row{r}/final/aref", cmp("==", kt.post("efc_aref_out", w, er), arith("+", a["aref!"], extra)), G, names=names, replay=rp, desc=f"{tag}: row {r}: efc.aref differs from the reference acceleration (+ Jdot*v correction)")
+      PH(f"row{r}/final/aref", cmp("==", kt.post("efc_aref_out", w, er), arith("+", a["aref!"], extra)), "efc.aref differs from the reference acceleration (+ Jdot*v correction)", And(G, cmp("<=", nv, B.U)), hard=True)
   return sess, bg
 
 
@@ -639,13 +720,32 @@ def jac_summaries():
 
   def jac_dof(it, fr, args):
     parent, rootid, dof_bodyid, isanc, com, cdof, point, bodyid, dofid, worldid = args
-    jp, jr = rf.sym_jac(isanc.cell.get((bodyid, dofid)), rootid.cell.get((bodyid,)), point.c, dofid, worldid)
+    g = it.active(fr)
+    # the accesses of the real function (so that its in-bounds conditions are part of the background / of the replayed models)
+    ia = it.load(isanc, (bodyid, dofid), g, "jac_dof(contract)")
+    g2 = And(g, cmp("!=", ia, 0))
+    root = it.load(rootid, (bodyid,), g2, "jac_dof(contract)")
+    it.load(com, (worldid, root), g2, "jac_dof(contract)")
+    it.load(cdof, (worldid, dofid), g2, "jac_dof(contract)")
+    jp, jr = rf.sym_jac(ia, root, point.c, dofid, worldid)
     return (core.Vec(jp, (3,), "f"), core.Vec(jr, (3,), "f"))
 
   def jac_dot_dof(it, fr, args):
     parent, rootid, jnt_type, jnt_dofadr, dof_bodyid, dof_jntid, isanc, com, cdof, cvel, cdof_dot, point, bodyid, dofid, worldid = args
-    cv = [cvel.cell.get((worldid, bodyid), k) for k in range(6)]
-    jp, jr = rf.sym_jacdot(isanc.cell.get((bodyid, dofid)), rootid.cell.get((bodyid,)), cv, point.c, dofid, worldid)
+    g = it.active(fr)
+    ia = it.load(isanc, (bodyid, dofid), g, "jac_dot_dof(contract)")
+    g2 = And(g, cmp("!=", ia, 0))
+    root = it.load(rootid, (bodyid,), g2, "jac_dot_dof(contract)")
+    it.load(com, (worldid, root), g2, "jac_dot_dof(contract)")
+    cvv = it.load(cvel, (worldid, bodyid), g2, "jac_dot_dof(contract)")
+    it.load(cdof, (worldid, dofid), g2, "jac_dot_dof(contract)")
+    it.load(cdof_dot, (worldid, dofid), g2, "jac_dot_dof(contract)")
+    jid = it.load(dof_jntid, (dofid,), g2, "jac_dot_dof(contract)")
+    it.load(jnt_type, (jid,), g2, "jac_dot_dof(contract)")
+    it.load(jnt_dofadr, (jid,), g2, "jac_dot_dof(contract)")
+    db = it.load(dof_bodyid, (dofid,), g2, "jac_dot_dof(contract)")
+    it.load(cvel, (worldid, db), g2, "jac_dot_dof(contract)")
+    jp, jr = rf.sym_jacdot(ia, root, cvv.c, point.c, dofid, worldid)
     return (core.Vec(jp, (3,), "f"), core.Vec(jr, (3,), "f"))
 
   return {"jac_dof": jac_dof, "jac_dot_dof": jac_dot_dof}
